@@ -10,7 +10,8 @@
 //! compared with the model's cover sets.
 //!
 //! The wire-lab part (real handshakes, strict SNI binding / 421, the "no window" clause of
-//! Replace under concurrent handshakes) is not part of this module.
+//! Replace under concurrent handshakes) is the sub-check `handshake` in `c17_lab.rs`; it reuses the
+//! history generator and the reference model of this module.
 
 use std::collections::{BTreeMap, BTreeSet};
 
@@ -31,7 +32,7 @@ use crate::{
 
 /// names used for `CertificateAndKey.names` overrides: the bank's names plus neighbours that
 /// create more exact/wildcard overlap, and a few non-canonical spellings (upper case, trailing dot)
-const NAME_POOL: &[&str] = &[
+pub(super) const NAME_POOL: &[&str] = &[
     "a.x.com",
     "b.x.com",
     "c.x.com",
@@ -201,10 +202,18 @@ fn random_fingerprint(x: u32) -> String {
 }
 
 pub fn strategy() -> impl Strategy<Value = Case> {
+    ops_strategy(2..17).prop_map(|ops| Case {
+        ops,
+        strict_case: false,
+    })
+}
+
+/// histories of `len` operations (shared with the wire-lab sub-check)
+pub(super) fn ops_strategy(len: std::ops::Range<usize>) -> impl Strategy<Value = Vec<Op>> {
     (
         prop::collection::vec(any::<u32>(), 2..6),
         prop::collection::vec(any::<u32>(), 1..4),
-        prop::collection::vec((0u8..20, raw_spec(), 0u8..20, any::<u32>()), 2..17),
+        prop::collection::vec((0u8..20, raw_spec(), 0u8..20, any::<u32>()), len),
     )
         .prop_map(|(focus, focus_names, raw_ops)| {
             let focus_names: Vec<usize> = focus_names
@@ -277,36 +286,47 @@ pub fn strategy() -> impl Strategy<Value = Case> {
                     ops.push(Op::Replace { old, new: spec });
                 }
             }
-            Case {
-                ops,
-                strict_case: false,
-            }
+            ops
         })
 }
 
 // ------------------------------------------------------------------ model
 
 #[derive(Clone, Debug)]
-struct Loaded {
-    fingerprint: String,
-    fixture: &'static str,
+pub(super) struct Loaded {
+    pub(super) fingerprint: String,
+    pub(super) fixture: &'static str,
     /// names the certificate is loaded for, in DNS comparison form: ASCII lower case, one trailing
     /// dot dropped, duplicates dropped (first occurrence kept)
-    names: Vec<String>,
+    pub(super) names: Vec<String>,
     /// the names as spelled in the certificate / the override (triage only)
-    raw_names: Vec<String>,
-    expiry: i64,
+    pub(super) raw_names: Vec<String>,
+    pub(super) expiry: i64,
 }
 
 #[derive(Default)]
-struct Model {
-    loaded: Vec<Loaded>,
+pub(super) struct Model {
+    pub(super) loaded: Vec<Loaded>,
     /// fingerprints that were loaded once and are not loaded now
-    removed: BTreeSet<String>,
+    pub(super) removed: BTreeSet<String>,
+}
+
+/// what a Replace whose new certificate is good does by the reference semantics
+pub(super) struct ReplaceEffect {
+    /// fingerprint of the new certificate (the answer)
+    pub(super) fingerprint: String,
+    /// old == new: nothing changes
+    pub(super) idempotent: bool,
+    /// the new certificate was loaded before the call
+    pub(super) new_was_loaded: bool,
+    /// `old` is a fingerprint at all (else the removal is skipped)
+    pub(super) old_parsable: bool,
+    /// the loaded certificate the call took away
+    pub(super) removed: Option<String>,
 }
 
 /// DNS comparison form: ASCII lower case, one trailing dot (absolute form) dropped
-fn norm(s: &str) -> String {
+pub(super) fn norm(s: &str) -> String {
     let mut s = s.to_ascii_lowercase();
     if s.ends_with('.') {
         s.pop();
@@ -326,7 +346,7 @@ fn dns_form(names: &[String]) -> Vec<String> {
 }
 
 /// the wildcard name that covers `name`: `*.` + everything after the left-most label
-fn wildcard_for(name: &str) -> Option<String> {
+pub(super) fn wildcard_for(name: &str) -> Option<String> {
     match name.split_once('.') {
         Some((label, rest)) if !label.is_empty() && !rest.is_empty() => Some(format!("*.{rest}")),
         _ => None,
@@ -334,12 +354,12 @@ fn wildcard_for(name: &str) -> Option<String> {
 }
 
 impl Model {
-    fn get(&self, fp: &str) -> Option<&Loaded> {
+    pub(super) fn get(&self, fp: &str) -> Option<&Loaded> {
         self.loaded.iter().find(|l| l.fingerprint == fp)
     }
 
     /// `Err(())`: the request must be refused and nothing may change
-    fn add(&mut self, spec: &CertSpec) -> Result<String, ()> {
+    pub(super) fn add(&mut self, spec: &CertSpec) -> Result<String, ()> {
         if spec.bad != Bad::No {
             return Err(());
         }
@@ -365,7 +385,7 @@ impl Model {
     }
 
     /// true when a loaded certificate went away
-    fn remove(&mut self, fp: &str) -> bool {
+    pub(super) fn remove(&mut self, fp: &str) -> bool {
         let before = self.loaded.len();
         self.loaded.retain(|l| l.fingerprint != fp);
         if self.loaded.len() != before {
@@ -395,23 +415,54 @@ impl Model {
         (exact, wild)
     }
 
-    fn tiers(&self, probe: &str) -> (Vec<usize>, Vec<usize>) {
+    pub(super) fn tiers(&self, probe: &str) -> (Vec<usize>, Vec<usize>) {
         self.tiers_of(probe, false)
+    }
+
+    /// Reference semantics of Replace(old, new) for a good `new`: old == new keeps the store as it
+    /// is; otherwise Add(new) then Remove(old), the removal being skipped when `old` is not a
+    /// fingerprint at all. (A replacement whose new certificate does not parse changes nothing and
+    /// is refused: the caller's case.)
+    pub(super) fn replace(&mut self, old: &str, new: &CertSpec) -> ReplaceEffect {
+        let new_fp = fixture(new).fingerprint;
+        let old_hex = hex_bytes(old).as_ref().map(hex::encode);
+        let new_was_loaded = self.get(new_fp).is_some();
+        if old_hex.as_deref() == Some(new_fp) {
+            return ReplaceEffect {
+                fingerprint: new_fp.to_string(),
+                idempotent: true,
+                new_was_loaded,
+                old_parsable: true,
+                removed: None,
+            };
+        }
+        let fingerprint = self.add(new).expect("good spec");
+        let removed = match &old_hex {
+            Some(o) if self.remove(o) => Some(o.clone()),
+            _ => None,
+        };
+        ReplaceEffect {
+            fingerprint,
+            idempotent: false,
+            new_was_loaded,
+            old_parsable: old_hex.is_some(),
+            removed,
+        }
     }
 }
 
-fn fixture(spec: &CertSpec) -> &'static Fixture {
+pub(super) fn fixture(spec: &CertSpec) -> &'static Fixture {
     &certs::BANK[fixture_index(&spec.fixture).expect("fixture id of the bank")]
 }
 
-fn hex_bytes(s: &str) -> Option<Vec<u8>> {
+pub(super) fn hex_bytes(s: &str) -> Option<Vec<u8>> {
     hex::decode(s).ok()
 }
 
 /// Judge what is served (`None` = default certificate) for one name against the loaded
 /// certificates covering it: exact tier first, else wildcard tier; inside the tier a maximal expiry
 /// (ties: any). `None` = admissible, else (signature, description).
-fn verdict(
+pub(super) fn verdict(
     model: &Model,
     served: Option<usize>,
     exact: &[usize],
@@ -464,7 +515,7 @@ fn verdict(
 
 // ------------------------------------------------------------------ system under test
 
-fn certificate_and_key(spec: &CertSpec) -> CertificateAndKey {
+pub(super) fn certificate_and_key(spec: &CertSpec) -> CertificateAndKey {
     let fx = fixture(spec);
     let (pem, key) = match spec.bad {
         Bad::No => (fx.pem, fx.key),
@@ -606,44 +657,35 @@ pub fn check(case: &Case) -> CheckResult {
                     old_fingerprint: old.clone(),
                     new_expired_at: new.expired_at,
                 });
-                let old_bytes = hex_bytes(old);
                 // reference semantics: a replacement whose new certificate does not parse changes
-                // nothing; old == new keeps the store as it is; otherwise Add(new) then Remove(old),
-                // the removal being skipped when `old` is not a fingerprint at all
+                // nothing; otherwise `Model::replace`
                 let exp: Result<String, ()> = if new.bad != Bad::No {
                     seen.replace_failing = true;
                     Err(())
                 } else {
-                    let new_fp = fixture(new).fingerprint;
-                    let old_hex = old_bytes.as_ref().map(hex::encode);
-                    if old_hex.as_deref() == Some(new_fp) {
-                        if model.get(new_fp).is_some() {
+                    let e = model.replace(old, new);
+                    if e.idempotent {
+                        if e.new_was_loaded {
                             seen.replace_idempotent_loaded = true;
                         } else {
                             seen.replace_idempotent_unloaded = true;
                         }
-                        Ok(new_fp.to_string())
                     } else {
-                        let was_loaded = model.get(new_fp).is_some();
-                        seen.replace_new_already_loaded |= was_loaded;
-                        let fp = model.add(new).expect("good spec");
-                        if !was_loaded {
+                        seen.replace_new_already_loaded |= e.new_was_loaded;
+                        if !e.new_was_loaded {
                             seen.override_names |= !new.names.is_empty();
                             seen.override_expiry |= new.expired_at.is_some();
                         }
-                        match old_hex {
-                            Some(o) => {
-                                if model.remove(&o) {
-                                    seen.effective_replace = true;
-                                    just_removed = Some(o);
-                                } else {
-                                    seen.replace_old_unknown = true;
-                                }
+                        match (e.old_parsable, e.removed) {
+                            (false, _) => seen.replace_old_unparsable = true,
+                            (true, Some(o)) => {
+                                seen.effective_replace = true;
+                                just_removed = Some(o);
                             }
-                            None => seen.replace_old_unparsable = true,
+                            (true, None) => seen.replace_old_unknown = true,
                         }
-                        Ok(fp)
                     }
+                    Ok(e.fingerprint)
                 };
                 match (&exp, &got) {
                     (Ok(fp), Ok(g)) if *fp == g.to_string() => {}
@@ -847,6 +889,12 @@ pub fn check(case: &Case) -> CheckResult {
 }
 
 pub fn run(args: &Args) -> i32 {
+    // child shard of the wire-lab sub-check
+    if args.shard.is_some() {
+        let total = args.cases(150, 1_500);
+        let st = super::c17_lab::child(args, total);
+        return engine::shard::child_finish(args, &st);
+    }
     let mut ev = Evidence::new(args, "exploration");
     ev.rule(
         "resolver",
@@ -872,5 +920,34 @@ pub fn run(args: &Args) -> i32 {
     ev.floor("resolver", "override_expiry", 0.30);
     let cases = args.cases(200_000, 3_000_000);
     engine::run_pbt(&mut ev, args, "resolver", cases, strategy, check);
+
+    // ---- wire lab
+    let sub = super::c17_lab::SUB;
+    ev.rule(sub, super::c17_lab::rule());
+    ev.assume("handshake: the default certificate is what the listener presents while no certificate is loaded (observed once per lab; it must be sozu's built-in fallback certificate, CN lolcatho.st, or the lab certificate — the worker does not consult the listener configuration's certificate / key fields); it covers none of the lab's hostnames");
+    ev.assume("handshake: the names a certificate covers are the names it is loaded for (names override if given, else SAN / CN), as in the resolver sub-check; the SNI <-> authority binding is judged against those names of the presented certificate");
+    ev.assume("handshake: a handshake without SNI has no server name to cover: refusing it (what sozu does) or presenting the default certificate are both admitted, a loaded certificate is not");
+    ev.assume("handshake: on a connection that was presented the default certificate, a request for the connection's own server name is served (nothing crosses a certificate boundary); sozu refuses every other authority there, which is admitted");
+    ev.assume("handshake: how the router treats a Host spelled with upper case, a port or a trailing dot is C05's subject; for such spellings only 'not refused as misdirected when covered / refused when not covered' and 'if a backend is reached it is the frontend's' are asserted");
+    ev.floor(sub, "strict_on", 0.3);
+    ev.floor(sub, "strict_off", 0.3);
+    ev.floor(sub, "http_421_seen", 0.25);
+    ev.floor(sub, "http_421_wildcard_suffix_without_label_boundary", 0.05);
+    ev.floor(sub, "http_other_name_covered_by_certificate_served", 0.08);
+    ev.floor(sub, "replace_window_old_and_new_seen", 0.4);
+    ev.floor(sub, "http_200", 0.6);
+    ev.floor(sub, "probe_exact", 0.5);
+    ev.floor(sub, "probe_wildcard", 0.3);
+    ev.floor(sub, "probe_uncovered_default", 0.5);
+    ev.floor(sub, "probe_case_variant", 0.3);
+    ev.floor(sub, "probe_name_covered_by_2+_loaded", 0.3);
+    ev.floor(sub, "cmd_add_ok", 0.6);
+    ev.floor(sub, "cmd_remove_ok", 0.3);
+    ev.floor(sub, "cmd_replace_ok", 0.3);
+    ev.floor(sub, "effective_remove", 0.15);
+    ev.floor(sub, "effective_replace", 0.1);
+    ev.floor(sub, "failure_then_same_probes", 0.1);
+    ev.floor(sub, "replace_window", 0.5);
+    engine::shard::run_sharded(&mut ev, args, sub, 16, std::time::Duration::from_secs(args.tier.pick(300, 2400)));
     ev.finish()
 }
